@@ -93,7 +93,9 @@ class FakeWriter:
             else:
                 s.probelog.append((self.wid, bytes(data)))
             return
-        if not name.startswith("send"):
+        if not name.startswith("send") or name in s.cb_send_tasks:
+            # not one of the session's senders (configuration packet, or a message a callback sends while it runs on a
+            # sender's task): logged apart, never scripted to fail
             s.ev(["cfg", self.wid, bytes(data).hex()])
             self._last, self._lastname = {"w": "ok", "d": "ret"}, name
             return
@@ -113,7 +115,7 @@ class FakeWriter:
         name = _tname()
         if name == "probe" and self.closed:
             raise ConnectionResetError("Connection lost")      # what StreamWriter.drain() does on a closing transport
-        if not name.startswith("send"):
+        if not name.startswith("send") or name in s.cb_send_tasks:
             return
         i = int(name[4:])
         ent = s.pending_drain.pop(name, {"d": "ret"})
@@ -179,6 +181,7 @@ class Session:
         self.pending_drain = {}
         self.bytelog = []
         self.probelog = []
+        self.cb_send_tasks = set()
         self.probe_dropped = 0
         self.readers = []
         self.writers = []
@@ -307,6 +310,9 @@ async def _rx_session(spec, sess):
             if cb.get("yield_every") and n % cb["yield_every"] == 0:
                 sess.ev(["cbsusp", idx])
                 await asyncio.sleep(0)
+            if cb.get("send_every") and n % cb["send_every"] == 0:
+                # an application that answers what it receives: a valid message sent from inside the receive callback
+                await client.send(load_msg({"basic": POOL_BASIC[1]}))
             if cb.get("raise_every") and n % cb["raise_every"] == 0:
                 raise _cb_exc(n)
         except BaseException as e:
@@ -374,7 +380,7 @@ async def _tx_session(spec, sess):
 
     def enc_wrapped(m):
         name = _tname()
-        i = int(name[4:]) if name.startswith("send") else -1
+        i = int(name[4:]) if name.startswith("send") and name not in sess.cb_send_tasks else -1
         try:
             r = real_enc(m)
         except ValueError as e:
@@ -399,6 +405,7 @@ async def _tx_session(spec, sess):
         return real_connect()
 
     client.connect = connect_wrapped
+    real_send = client.send
     scb = spec.get("status_cb", "ret")
 
     nst = [0]
@@ -412,6 +419,19 @@ async def _tx_session(spec, sess):
         elif scb == "raise":
             nst[0] += 1
             raise _cb_exc(nst[0])
+        elif scb == "sends" and s.name == "DISCONNECTED" and not nst[0]:
+            # an application that reacts to the loss by sending: that send() must come back (it fails or succeeds, the
+            # library decides) — a callback is awaited by the library, so a send() that waits for ITS caller never returns
+            nst[0] = 1
+            sess.cb_send_tasks.add(_tname())
+            try:
+                await asyncio.wait_for(real_send(load_msg({"basic": POOL_BASIC[1]})), 30.0)
+            except asyncio.TimeoutError:
+                sess.ev(["callback_send_stuck"])
+            except Exception:  # noqa: BLE001
+                pass
+            finally:
+                sess.cb_send_tasks.discard(_tname())
         sess.ev(["status_done", s.name, _tname()])
 
     if scb != "none":
@@ -434,6 +454,16 @@ async def _tx_session(spec, sess):
                 sess.ev(["done", i])
 
         tasks.append(asyncio.create_task(one(), name=f"send{i}"))
+        if s.get("cancel_after") is not None:
+            # the application gives up on this send() (a wait_for timeout, a task group being torn down): cancelled after
+            # `cancel_after` loop turns, wherever it is suspended then
+            async def canceller(t=tasks[-1], n=int(s["cancel_after"]), i=i):
+                for _ in range(n):
+                    await asyncio.sleep(0)
+                if not t.done():
+                    sess.ev(["cancel", i])
+                    t.cancel()
+            asyncio.create_task(canceller(), name="harness-cancel")
         d = int(s.get("delay", 0))
         if d >= 100:
             await asyncio.sleep(d / 1000.0)
@@ -685,14 +715,15 @@ def build_pool():
     return pool
 
 
-def wire_rx(kind, m, enc, ts="00:01:02.345"):
+def wire_rx(kind, m, enc, ts="00:01:02.345", direction="R"):
     """The packets a gateway of this kind would send for message m (receive direction)."""
     if kind == "ebyte":
         return [p.ljust(13, b"\0") for p in enc.encode_ebyte(m)]
     if kind == "waveshare":
         return list(enc.encode_usb(m))
     if kind == "yd":
-        return [(ts + " R ").encode() + p for p in enc.encode_yacht_devices(m)]
+        # the RAW protocol has two directions: R (received from the bus) and T (the gateway's own transmissions, echoed)
+        return [(ts + " " + direction + " ").encode() + p for p in enc.encode_yacht_devices(m)]
     if kind == "actisense":
         return [("A000123.456 " + enc.encode_actisense(m) + "\r\n").encode()]
     raise ValueError(kind)
